@@ -531,8 +531,14 @@ LOOPVAR_LABELS = {}    # canonical loop-carried id -> readable local name (repor
 SYMKIND = {}          # symbol name -> 'callable' | 'array' | 'scalar' (input-form case analysis)
 
 
+NOTNONE_KEYS = set()      # keys of terms shown not to be None (items of tuples returned by package functions)
+NOTNONE_ITEMS = set()     # (package function, k): the k-th item of the tuple it returns is never None
+
+
 def _known_not_none(x):
     if x.const() is not None:
+        return True
+    if x.key in NOTNONE_KEYS:
         return True
     at = x.single_atom()
     if at is None:
@@ -543,14 +549,23 @@ def _known_not_none(x):
         return True            # numpy constructors / elementwise functions return arrays or numbers, never None
     if at.kind == 'sub':
         ba = at.args[0].single_atom()
+        kc = at.args[1].const()
+        if ba is not None and ba.kind == 'call' and kc is not None and (str(ba.args[0]), int(kc)) in NOTNONE_ITEMS:
+            return True
         if ba is not None and ba.kind == 'call' and ba.args[0] in NUMERIC_RESULT:
             return True        # an item / slice of such a result
+        if ba is None and at.args[0].const() is None:
+            return True        # an item of an arithmetic result (a numeric array)
+        if ba is not None and ba.kind == 'sub':
+            return _known_not_none(at.args[0])
+        if ba is not None and ba.kind == 'sym' and SYMKIND.get(ba.args[0]) == 'array':
+            return True        # an item of a numeric input array
     return at.kind in ('str', 'tuple', 'list', 'dict', 'closure', 'new', 'bool', 'seq', 'func', 'class')
 
 
 LIST_ATTRS = set()         # attribute names that always hold a list (model.py)
 NOTNONE_CALLS = set()      # package functions whose every return statement yields a value that cannot be None (model.py)
-NUMERIC_RESULT = {'tile_rows', 'tile_cols', 'size', 'trunc', 'floordiv', 'mod', 'min', 'max', 'meshgrid', 'zeros', 'ones', 'full', 'empty', 'linspace', 'arange', 'array', 'diff', 'reshape', 'repeat',
+NUMERIC_RESULT = {'choice', 'normal', 'uniform', 'integers', 'standard_normal', 'chisquare', 'tile_rows', 'tile_cols', 'size', 'trunc', 'floordiv', 'mod', 'min', 'max', 'meshgrid', 'zeros', 'ones', 'full', 'empty', 'linspace', 'arange', 'array', 'diff', 'reshape', 'repeat',
                   'concatenate', 'append', 'abs', 'sqrt', 'exp', 'log', 'cos', 'sin', 'round', 'floor', 'ceil', 'mean', 'sum',
                   'std', 'cumsum', 'len', 'int', 'float', 'astype', 'real', 'imag', 'maximum', 'minimum', 'clip', 'where',
                   'tile', 'flip', 'transpose', 'fft', 'fftshift', 'rfft', 'frombuffer', 'copy'}
@@ -1605,6 +1620,10 @@ def compare(a, b, max_conds=8):
             _basic_conds(y, pb)
             if set(pa) == set(pb):
                 conds.update(pa)
+            elif (x.key in (TRUE.key, FALSE.key) or y.key in (TRUE.key, FALSE.key)) and len(pa) + len(pb) <= 10:
+                # satisfiability / validity of one boolean combination: its own truth table
+                conds.update(pa)
+                conds.update(pb)
         return conds
 
     def rec(x, y, asg):
